@@ -189,7 +189,7 @@ theorem enumFromList_returns (e : SEnum ν) (hv : ∀ v ∈ e.variants, VariantR
     simp only []
     cases ha : e.arm nested.path'.toStr with
     | none => exact Outcome.returns_err _
-    | some v => exact dataArm_returns v (hv v (List.mem_of_find?_eq_some ha)) nested
+    | some v => exact (dataArm_returns v (hv v (List.mem_of_find?_eq_some ha)) nested).mapErr _
   · exact Outcome.returns_err _
   · exact Outcome.returns_err _
 
